@@ -316,6 +316,31 @@ fn run(ctx: &mut Ctx) {
             }
         }
     }
+    // unreached positions holding constant sub-expressions that fail if evaluated (nothing to log — the
+    // outcome shows it): literal division by zero, a bad cast, a type error, an unknown reference
+    {
+        let bombs = || vec![
+            Expr::div(Expr::value(1), Expr::value(0)), Expr::int(Expr::value("x".to_string())), Expr::add(Expr::value(1), Expr::value("s".to_string())),
+            Expr::reff("no_such_field"), Expr::symbol("no_such_symbol"), Expr::func("no_such_function", Expr::value(1)), Expr::neg(Expr::value(i128::MIN)),
+            Expr::Vec(vec![Expr::value(1), Expr::div(Expr::value(1), Expr::value(0))]), Expr::index(Expr::value(5), Index::from(0usize)),
+        ];
+        for bomb in bombs() {
+            for decider in ["t", "f", "n"] {
+                if !ctx.mine() {
+                    continue;
+                }
+                for e in [
+                    Expr::and(ids.leaf(decider), bomb.clone()), Expr::or(ids.leaf(decider), bomb.clone()), Expr::eq(ids.leaf(decider), bomb.clone()), Expr::neq(ids.leaf(decider), bomb.clone()),
+                    Expr::iif(ids.leaf(decider), bomb.clone(), Expr::value(1)), Expr::iif(ids.leaf(decider), Expr::value(1), bomb.clone()),
+                    Expr::and(Expr::value(false), bomb.clone()), Expr::or(Expr::value(true), bomb.clone()), Expr::eq(Expr::none_value(), bomb.clone()),
+                    Expr::iif(Expr::value(true), Expr::value(1), bomb.clone()), Expr::iif(Expr::value(false), bomb.clone(), Expr::value(2)),
+                    Expr::Vec(vec![Expr::or(Expr::value(true), bomb.clone()), ids.leaf("v")]),
+                ] {
+                    judge(ctx, &e, "constant-failing-subexpression-in-lazy-position");
+                }
+            }
+        }
+    }
     // depth 2 with all children composite, and deeper random trees
     let mut rng = ctx.rng.clone();
     // repeated, textually identical sub-expressions around cacheable functions: a cache hit must not
